@@ -1,4 +1,4 @@
-(* Model of annotateast.TypeConvertStr (langserver/check/annotation/annotateast/annotate_util.go:25-98),
+(* Model of annotateast.TypeConvertStr (langserver/check/annotation/annotateast/annotate_util.go: TypeConvertStr, needParenInArray),
    the printer used for hover / completion text.  No index can go out of range: ParamTypeList[index] is guarded
    by len(ParamTypeList) > index (and the three parameter lists always have the same length). *)
 From Coq Require Import String Ascii List NArith Bool.
@@ -14,6 +14,19 @@ Definition s_comma_sp : bytes := Eval vm_compute in bs ", ".
 Definition s_colon_sp : bytes := Eval vm_compute in bs ": ".
 Definition s_function : bytes := Eval vm_compute in bs "function(".
 
+(* needParenInArray: the item of an array keeps its parentheses when it is a union, a fun type or an array
+   (a MultiType of one member is looked through) *)
+Fixpoint need_paren_in_array (t : atype) : bool :=
+  match t with
+  | AMulti ts =>
+    match ts with
+    | [x] => need_paren_in_array x
+    | _ => Nat.ltb 1 (length ts)
+    end
+  | AFun _ _ | AArray _ => true
+  | _ => false
+  end.
+
 Fixpoint type_convert_str (t : atype) : bytes :=
   match t with
   | AMulti ts =>
@@ -22,7 +35,9 @@ Fixpoint type_convert_str (t : atype) : bytes :=
                  let s := type_convert_str one in
                  if is_nil s then acc else (if is_nil acc then s else acc ++ s_bar ++ s)) ts []
   | ANormal n _ => n
-  | AArray i => type_convert_str i ++ s_brackets
+  | AArray i =>
+    let s := type_convert_str i in
+    (if need_paren_in_array i then [40] ++ s ++ [41] else s) ++ s_brackets
   | ATableEmpty => s_table
   | ATable k v => s_table_lt ++ type_convert_str k ++ s_comma_sp ++ type_convert_str v ++ [62]
   | AFun ps rs =>
